@@ -405,7 +405,9 @@ pub fn run_case(id: &str, lines: &[String], facts: &DbFacts) -> CaseRun {
                     obs.push(format!("dec {cn} {}", dl[0]));
                     obs.extend(dl[1..].iter().cloned());
                 }
-                crate::binoracle::c01(id, &f, &d, cn, &mut oracle);
+                if f.opt("rootdup").is_none() {
+                    crate::binoracle::c01(id, &f, &d, cn, &mut oracle);
+                }
             }
         }
         results.push((c, e));
